@@ -36,12 +36,15 @@ def gen_rulebook(rng, depth=3, prefix="undo", allow=("global", "ordered", "rewri
             toks += [rng.choice(["m", "*"]), "~"]
         else:
             toks.append("~")
+        flat = "flat" in allow  # Junos-like: a block's row has a fixed number of words, no catch-alls (commands are segmented by word count)
+        if flat and toks[-1] == "~" and rng.random() < 0.5:
+            toks = toks[:-1] if len(toks) > 1 else toks
         negform = "negform" in allow and rng.random() < 0.08
         if negform:
             toks = [prefix] + toks
         r = RB.Rule(" ".join(toks))
         kind = rng.random()
-        if lvl < depth - 1 and kind < 0.45:
+        if lvl < depth - 1 and kind < 0.45 and not (flat and toks[-1] == "~"):
             # block rule
             sub = rng.random()
             if "rewrite" in allow and sub < 0.15:
@@ -49,6 +52,8 @@ def gen_rulebook(rng, depth=3, prefix="undo", allow=("global", "ordered", "rewri
             elif "ordered" in allow and sub < 0.35:
                 if rng.random() < 0.5:
                     r.children = [RB.Rule("q%d ~" % lvl, ordered=True)]
+                elif flat:
+                    r.children = [RB.Rule("q%d *" % lvl, ordered=True, children=[RB.Rule("y *")])]
                 else:
                     r.children = [RB.Rule("q%d *" % lvl, ordered=True, children=[RB.Rule("~")])]
                 if rng.random() < 0.5:
